@@ -90,6 +90,7 @@ func cmdVerify(args []string) int {
 	timeout := fs.Duration("timeout", 10*time.Second, "per-VC timeout")
 	keep := fs.Bool("keep", false, "keep SMT files")
 	dump := fs.String("dump", "", "dump the failing VC of this obligation name (substring)")
+	lemmasOnly := fs.Bool("lemmas", false, "verify the lemmas only")
 	fs.Parse(args)
 	keepSMT = *keep
 	p, err := loadProgram(*repo, nil)
@@ -119,7 +120,10 @@ func cmdVerify(args []string) int {
 	bad := 0
 	start := time.Now()
 	// lemmas first
-	if *funcs == "" {
+	if *lemmasOnly {
+		keys = nil
+	}
+	if *funcs == "" || *lemmasOnly {
 		for _, lr := range p.verifyLemmas(opts) {
 			printOblResult(lr, *verbose, *dump)
 			if lr.Status != "discharged" {
